@@ -7,6 +7,7 @@ import (
 	"go/ast"
 	"go/token"
 	"go/types"
+	"os"
 	"strings"
 )
 
@@ -184,7 +185,16 @@ func (c *FnCtx) packVariadic(st *State, fn *types.Func, args []*Val) []*Val {
 		if r.S == SNone {
 			continue
 		}
-		st.assume(tEq(tApp("at_"+sortName(s), seq, tInt(int64(i))), c.coerce(r, elemSort(s)).T))
+		es := elemSort(s)
+		ev := c.coerce(r, es)
+		if ev.S != es {
+			if es == SInt {
+				ev = c.box(ev)
+			} else {
+				continue
+			}
+		}
+		st.assume(tEq(tApp("at_"+sortName(s), seq, tInt(int64(i))), ev.T))
 	}
 	return append(fixed, &Val{T: seq, S: s, Typ: vt})
 }
@@ -605,9 +615,22 @@ func (c *FnCtx) callFunc(st *State, call *ast.CallExpr, fn *types.Func, recv *Va
 		// interface method: try "<pkg>.<Iface>.<m>" already; else fall back
 		return c.callNoContract(st, call, fn, recv, args, key)
 	}
+	if con.Flags["inline"] && c.inlining[key] >= 2 {
+		// recursion: beyond two nested activations the callee is replaced by its inferred effects
+		if ef := c.V.effects[key]; ef != nil {
+			return c.callByEffects(st, call, fn, recv, args, key, ef)
+		}
+	}
 	if con.Flags["inline"] {
-		if fd := c.V.funcs[key]; fd != nil && c.V.funcPkg[key] == c.pkg && fd.Body != nil && fd.Recv == nil {
+		if fd := c.V.funcs[key]; fd != nil && c.V.funcPkg[key] == c.pkg && fd.Body != nil {
+			c.inlining[key]++
+			defer func() { c.inlining[key]-- }()
 			c.usedCons[key+" (inlined)"] = true
+			if fd.Recv != nil && len(fd.Recv.List) > 0 && len(fd.Recv.List[0].Names) > 0 && recv != nil {
+				if o := c.info.Defs[fd.Recv.List[0].Names[0]]; o != nil {
+					st.vars[o] = recv
+				}
+			}
 			return c.inlineBody(st, &ast.FuncLit{Type: fd.Type, Body: fd.Body}, sig, args, call)
 		}
 		c.warn("inline %s: only same-package functions without receiver can be inlined", key)
@@ -634,8 +657,18 @@ func (c *FnCtx) callFunc(st *State, call *ast.CallExpr, fn *types.Func, recv *Va
 	}
 	for i, n := range names {
 		if i < len(all) && n != "" && n != "_" && all[i] != nil {
-			bind[n] = all[i]
-			bind[n+"0"] = all[i]
+			a := all[i]
+			pi := i
+			if sig.Recv() != nil {
+				pi = i - 1
+			}
+			if pi >= 0 && pi < sig.Params().Len() {
+				if _, isIface := sig.Params().At(pi).Type().Underlying().(*types.Interface); isIface && a.S != SInt && a.S != SNone {
+					a = c.box(a)
+				}
+			}
+			bind[n] = a
+			bind[n+"0"] = a
 		}
 	}
 	pre := st.clone()
@@ -675,6 +708,12 @@ func (c *FnCtx) callFunc(st *State, call *ast.CallExpr, fn *types.Func, recv *Va
 		iterCount, iterLast = c.iterCount, c.iterLast
 	}
 	c.closureArgsArbitrary(st, call, con, all, names)
+	if ef := c.V.effects[key]; ef != nil {
+		c.assertGates(st, call, fn, recv, key, ef)
+		if con.Flags["frame-by-effects"] {
+			c.frameByEffects(st, ef)
+		}
+	}
 	// abstract values updated in place (receiver of container methods)
 	postBind := map[string]*Val{}
 	recvExpr := c.curRecvExpr
@@ -744,7 +783,25 @@ func (c *FnCtx) callFunc(st *State, call *ast.CallExpr, fn *types.Func, recv *Va
 	}
 	envPost := &SpecEnv{c: c, st: st, lookup: postLookup, old: oldEnv, calleeKey: key, calleePost: true}
 	for _, e := range con.Ensures {
-		st.assume(c.specBool(envPost, e.Expr))
+		t := c.specBool(envPost, e.Expr)
+		if os.Getenv("VCGO_DEBUG") != "" && shortKey(key) == "Message.Command" {
+			fmt.Fprintf(os.Stderr, "   Command ensures at %s: %.300s\n", c.pos(call), t)
+		}
+		st.assume(t)
+	}
+	if c.splitAtCall != "" && st.splitIdx < len(c.splitConds) && (key == c.splitConds[st.splitIdx].Label || shortKey(key) == c.splitConds[st.splitIdx].Label) &&
+		(len(results) == 0 || results[0].S != SStr || st.litOf(results[0].T) == "") {
+		// case split on the result of the next call of this callee whose result is not yet known (per path)
+		sc := c.splitConds[st.splitIdx]
+		if os.Getenv("VCGO_DEBUG") != "" {
+			fmt.Fprintf(os.Stderr, "split[%d] at %s: %s\n", st.splitIdx, c.pos(call), sc.Src)
+		}
+		st.splitIdx++
+		t := c.specBool(envPost, sc.Expr)
+		if os.Getenv("VCGO_DEBUG") != "" {
+			fmt.Fprintf(os.Stderr, "   assume %.300s\n", t)
+		}
+		st.assume(t)
 	}
 	// callbacks: a function literal passed to a callee whose contract says `callback <param>`
 	return results
@@ -870,6 +927,9 @@ func (c *FnCtx) havocHeapAt(st *State, key, ref string) {
 func (c *FnCtx) callNoContract(st *State, call *ast.CallExpr, fn *types.Func, recv *Val, args []*Val, key string) []*Val {
 	sig, _ := fn.Type().(*types.Signature)
 	if c.isRepoFunc(fn) {
+		if ef := c.V.effects[key]; ef != nil && c.V.funcs[key] != nil {
+			return c.callByEffects(st, call, fn, recv, args, key, ef)
+		}
 		c.nocontract[key] = true
 		ms := newModSet()
 		ms.all = true
@@ -1172,7 +1232,9 @@ func (c *FnCtx) iterateCallback(st *State, call *ast.CallExpr, con *Contract, bi
 }
 
 // iterProtocol: the function under verification promises (`iterates p seq S args A when C position E`) to behave like
-//     for k := range S { if C(S[k]) { if !p(A(S[k])) { break } } }
+//
+//	for k := range S { if C(S[k]) { if !p(A(S[k])) { break } } }
+//
 // At each invocation of p the obligations are: p has not yet said stop; the claimed position E is the next
 // C-element of S at or after the previous one; the arguments are A(S[E]). The ghost nextpos.<p> is then E+1.
 func (c *FnCtx) iterProtocol(st *State, call *ast.CallExpr, pv *types.Var, args []*Val) {
@@ -1301,4 +1363,239 @@ func (c *FnCtx) invokeArbitrarilyAt(st *State, node ast.Node, call *ast.CallExpr
 	c.iterCount = st.vars[cntObj]
 	c.iterLast = st.vars[lastObj]
 	return true
+}
+
+// callByEffects: a repo function without a contract is replaced by the frame the effect inference computed for it
+// (fields it may write, ghosts its callees' contracts change, lock operations). In functions marked `lockcheck`
+// the lock/gate requirements that follow from the callee's effect class are asserted at the call (A1, A2, A3).
+func (c *FnCtx) callByEffects(st *State, call *ast.CallExpr, fn *types.Func, recv *Val, args []*Val, key string, ef *Effects) []*Val {
+	sig, _ := fn.Type().(*types.Signature)
+	c.autoFramed[key] = true
+	wr := c.V.regionsOf(ef.W)
+	rd := c.V.regionsOf(ef.R)
+	has := func(rs []string, names ...string) bool {
+		for _, r := range rs {
+			for _, n := range names {
+				if r == n {
+					return true
+				}
+			}
+		}
+		return false
+	}
+	handler := c.isHandler(fn)
+	c.assertGates(st, call, fn, recv, key, ef)
+	if false {
+		lock := c.ghostTerm(st, "lock")
+		mk := func(tag, descr, goal string) {
+			c.nObl["auto."+tag]++
+			c.addObl(&Obligation{Name: fmt.Sprintf("%s/call.%s/%s@%d", c.key, shortKey(key), tag, c.callOrd(call)), Kind: "gate",
+				Descr: descr, Pos: c.pos(call), Hyps: append([]string(nil), st.pc...), Goal: goal,
+				Clause: fmt.Sprintf("%s: writes%v reads%v", key, wr, rd)})
+		}
+		if lock != "" {
+			if has(wr, "Keyspace", "Hooks", "Log", "Config") {
+				mk("A1", "a callee that writes shared server state runs under the exclusive lock", tEq(lock, "2"))
+			} else if has(rd, "Keyspace", "Hooks") {
+				mk("A1r", "a callee that reads the keyspace runs under a lock", tApp(">=", lock, "1"))
+			}
+		}
+		if handler && recv != nil {
+			env := &SpecEnv{c: c, st: st, lookup: func(n string) *Val {
+				if n == "s" {
+					return recv
+				}
+				return nil
+			}}
+			env.old = env
+			if has(wr, "Keyspace", "Hooks") {
+				if g, ok := c.V.specs.Ghosts["gateLeaderWritable"]; ok && g.Macro {
+					mk("A2", "a data-modifying command runs only on a writable leader", c.specBool(env, &ast.CallExpr{Fun: ast.NewIdent("gateLeaderWritable"), Args: []ast.Expr{ast.NewIdent("s")}}))
+				}
+			}
+			if has(rd, "Keyspace") && !has(wr, "Keyspace", "Hooks") {
+				if g, ok := c.V.specs.Ghosts["gateCaughtUp"]; ok && g.Macro {
+					mk("A3", "object reads are served by a follower only after it caught up once", c.specBool(env, &ast.CallExpr{Fun: ast.NewIdent("gateCaughtUp"), Args: []ast.Expr{ast.NewIdent("s")}}))
+				}
+			}
+		}
+	}
+	// frame
+	ms := newModSet()
+	for k := range ef.W {
+		ms.heap[k] = true
+	}
+	for hk := range st.heap {
+		for k := range ef.W {
+			if strings.HasPrefix(hk, k+".") {
+				ms.heap[hk] = true
+			}
+		}
+		// content of abstract containers / maps reached through written pointer fields
+		if strings.HasPrefix(hk, "ptr.") || strings.HasPrefix(hk, "map.") {
+			if len(ef.W) > 0 {
+				ms.heap[hk] = true
+			}
+		}
+	}
+	for g := range ef.G {
+		ms.ghost[g] = true
+	}
+	if len(ef.LockOps) > 0 {
+		ms.ghost["lock"] = true
+		c.warn("%s operates the server lock and has no contract: lock state havoced at %s", key, c.pos(call))
+	}
+	c.havoc(st, ms, "fx")
+	var rs []*Val
+	if sig != nil {
+		rs = c.havocResults(st, sig.Results())
+	}
+	// a data-modifying handler leaves a mutation to be logged iff it reports success and `updated`
+	if handler && has(wr, "Keyspace", "Hooks") {
+		if _, ok := c.V.specs.GhostVars["pending"]; ok {
+			var errv, dv, resv *Val
+			for i := 0; sig != nil && i < sig.Results().Len(); i++ {
+				rt := sig.Results().At(i).Type()
+				if types.Identical(rt, types.Universe.Lookup("error").Type()) {
+					errv = rs[i]
+				}
+				if typeShortName(rt) == "server.commandDetails" {
+					dv = rs[i]
+				}
+				if typeShortName(rt) == "resp.Value" {
+					resv = rs[i]
+				}
+			}
+			p := "true"
+			if errv != nil {
+				p = tEq(errv.T, "0")
+			}
+			if resv != nil && resv.S == SInt {
+				// assumption (listed): a handler that answers with an error-typed value has changed nothing
+				c.decls.declFun("gf_respType", []Sort{SInt}, SInt)
+				p = tAnd(p, tNot(tEq(tApp("gf_respType", resv.T), "45")))
+				c.assumeNote("a command handler that replies with an error-typed value (resp.Error) is assumed to have changed nothing (part of C01's handler contracts)")
+			}
+			if dv != nil {
+				p = tAnd(p, c.fieldOfVal(st, dv, "updated", types.Typ[types.Bool]).T)
+			}
+			st.ghost["pending"] = tOr(c.ghostTerm(st, "pending"), p)
+		}
+	}
+	c.closureArgsArbitrary(st, call, nil, append([]*Val{recv}, args...), nil)
+	return rs
+}
+
+func (c *FnCtx) ghostTerm(st *State, name string) string {
+	gv := c.V.specs.GhostVars[name]
+	if gv == nil {
+		return ""
+	}
+	return c.ghostGet(st, gv)
+}
+
+// isHandler: command handlers are the server methods cmdXxx(msg *Message, ...) dispatched by Server.command.
+func (c *FnCtx) isHandler(fn *types.Func) bool {
+	if !strings.HasPrefix(fn.Name(), "cmd") {
+		return false
+	}
+	sig, _ := fn.Type().(*types.Signature)
+	if sig == nil || sig.Recv() == nil || typeShortName(sig.Recv().Type()) != "server.Server" {
+		return false
+	}
+	for i := 0; i < sig.Params().Len(); i++ {
+		if typeShortName(sig.Params().At(i).Type()) == "server.Message" {
+			return true
+		}
+	}
+	return false
+}
+
+// box: a non-reference value stored in an interface (uninterpreted injection)
+func (c *FnCtx) box(v *Val) *Val {
+	if v.S == SInt || v.S == SNone {
+		return v
+	}
+	fn := "box_" + sortName(v.S)
+	c.decls.declFun(fn, []Sort{v.S}, SInt)
+	return &Val{T: tApp(fn, v.T), S: SInt, Typ: v.Typ}
+}
+
+func (c *FnCtx) inTrialAny() bool { return len(c.inTrial) > 0 }
+
+// assertGates: in functions marked `lockcheck`, the lock/gate requirements that follow from the callee's inferred
+// effect class are asserted at the call: A1 (exclusive lock for writers of Keyspace/Hooks/Log, a lock for readers),
+// A2 (writable leader) and A3 (caught up once) for command handlers.
+func (c *FnCtx) assertGates(st *State, call *ast.CallExpr, fn *types.Func, recv *Val, key string, ef *Effects) {
+	if c.con == nil || !c.con.Flags["lockcheck"] || ef == nil {
+		return
+	}
+	wr := c.V.regionsOf(ef.W)
+	rd := c.V.regionsOf(ef.R)
+	has := func(rs []string, names ...string) bool {
+		for _, r := range rs {
+			for _, n := range names {
+				if r == n {
+					return true
+				}
+			}
+		}
+		return false
+	}
+	handler := c.isHandler(fn)
+	lock := c.ghostTerm(st, "lock")
+	mk := func(tag, descr, goal string) {
+		c.nObl["auto."+tag]++
+		c.addObl(&Obligation{Name: fmt.Sprintf("%s/call.%s/%s@%d", c.key, shortKey(key), tag, c.callOrd(call)), Kind: "gate",
+			Descr: descr, Pos: c.pos(call), Hyps: append([]string(nil), st.pc...), Goal: goal,
+			Clause: fmt.Sprintf("%s: writes%v reads%v", key, wr, rd)})
+	}
+	if cc := c.V.specs.Contracts[key]; cc != nil && cc.Flags["locks-internally"] {
+		lock = "" // the callee takes the server lock itself
+	}
+	if lock != "" {
+		if has(wr, "Keyspace", "Hooks", "Log") {
+			mk("A1", "a callee that writes the keyspace, the hooks or the log runs under the exclusive lock", tEq(lock, "2"))
+		} else if has(rd, "Keyspace", "Hooks") {
+			mk("A1r", "a callee that reads the keyspace runs under a lock", tApp(">=", lock, "1"))
+		}
+	}
+	if handler && recv != nil {
+		env := &SpecEnv{c: c, st: st, lookup: func(n string) *Val {
+			if n == "s" {
+				return recv
+			}
+			return nil
+		}}
+		env.old = env
+		if has(wr, "Keyspace", "Hooks") {
+			if g, ok := c.V.specs.Ghosts["gateLeaderWritable"]; ok && g.Macro {
+				mk("A2", "a data-modifying command runs only on a writable leader", c.specBool(env, &ast.CallExpr{Fun: ast.NewIdent("gateLeaderWritable"), Args: []ast.Expr{ast.NewIdent("s")}}))
+			}
+		}
+		if has(rd, "Keyspace") && !has(wr, "Keyspace", "Hooks") {
+			if g, ok := c.V.specs.Ghosts["gateCaughtUp"]; ok && g.Macro {
+				mk("A3", "object reads are served by a follower only after it caught up once", c.specBool(env, &ast.CallExpr{Fun: ast.NewIdent("gateCaughtUp"), Args: []ast.Expr{ast.NewIdent("s")}}))
+			}
+		}
+	}
+}
+
+// frameByEffects havocs the heap locations the effect inference says the callee may write.
+func (c *FnCtx) frameByEffects(st *State, ef *Effects) {
+	ms := newModSet()
+	for k := range ef.W {
+		ms.heap[k] = true
+	}
+	for hk := range st.heap {
+		for k := range ef.W {
+			if strings.HasPrefix(hk, k+".") {
+				ms.heap[hk] = true
+			}
+		}
+		if (strings.HasPrefix(hk, "ptr.") || strings.HasPrefix(hk, "map.")) && len(ef.W) > 0 {
+			ms.heap[hk] = true
+		}
+	}
+	c.havoc(st, ms, "fx")
 }
